@@ -7,6 +7,17 @@ action timings and problem timed effects, ActionInstance(...).  After every *acc
 scans everything the model stores: every value must be compatible with its target (constants: own bounds / Boolean /
 ancestor check, independent of the library's type lattice; non-constant expressions: Type.is_compatible) and every stored
 initial / default value must be a constant.  After every *rejected* call the accessor-based snapshot of the model must be unchanged.
+
+"Leave the model unchanged" is also observed through behaviour: a twin problem / twin actions (same names, same signature,
+same environment) receive every call of the history except the calls that were rejected for an ill-typed value. Every other
+call must have the same outcome (accepted / exception class) on the model and on the twin, and at the end both have the same
+accessor snapshot. Right after a call rejected for its value, a legal edit of the same target (other admissible constant;
+assignment / increase / decrease, unconditional) is issued on both, so that hidden bookkeeping left behind by the rejected
+call (e.g. the conflicting-effects tables) shows up as a divergence.
+
+ActionInstance is exercised with history: two pairs of different actions with the same name and differently typed
+parameters (owned by two agents of one multi-agent problem in a third of the calls); an instance of one is followed by an
+instance of its namesake with the very same actual-parameter expressions.
 """
 from fractions import Fraction
 
@@ -16,7 +27,7 @@ from vk.mon import modeltypes as mt
 
 PROPERTY = "C23"
 LEVEL = "exploration"
-TECHNIQUE = "runtime monitoring: post-call scan of all stored values (is_compatible / is_constant) + unchanged-on-reject snapshots over generated model-building histories"
+TECHNIQUE = "runtime monitoring: post-call scan of all stored values (is_compatible / is_constant) + unchanged-on-reject snapshots + twin objects that never see the rejected calls (same outcome of all later calls, directed legal follow-up edits) over generated model-building histories"
 LEVEL_TEXT = (
     "Every model-building call observed (generated histories with matching and mismatching values for Boolean, bounded and "
     "unbounded numeric, and hierarchical user-typed fluents and parameters) is followed by a scan of all values the model "
@@ -35,12 +46,17 @@ RULE = (
     "timing, problem timed effect) / ActionInstance. Values: Python and FNode constants of every type (inside / outside "
     "bounds, sub / super / sibling objects), fluent expressions, arithmetic / Boolean expressions, parameters, raw Fluent / "
     "Object values. evaluations = judged calls. distinct_nontrivial = distinct (call kind, target type, value type, "
-    "constant?) with an incompatible value type or a non-constant value for an initial / default value."
+    "constant?) with an incompatible value type or a non-constant value for an initial / default value. Every call rejected "
+    "for its value on set_initial_value / add_*effect is followed by one legal edit of the same target (rng of its own), "
+    "compared with the twin: distinct (follow-up kind, target type, rejected kind) are non-trivial too. ActionInstance: actions "
+    "inst / dur and their same-named siblings with parameter types (S, T, int[1,3], int[-inf,3]) instead of (T, S, int[0,2], "
+    "int[0,inf]); 75 % of the instances are followed by the sibling's instance with the same parameters."
 )
 ASSUMPTIONS = [
     "'type-compatible' for a constant = membership in the target type (bounds; int constants fit real targets, real constants never fit int targets; an object fits its type and its ancestors); for a non-constant expression = the library's own Type.is_compatible (overlapping numeric intervals, int->real, subtype objects)",
     "a rejection is any exception raised by the call; its class is counted, not judged",
     "acceptance of compatible values is not demanded by the statement (don't-care)",
+    "'leave the model unchanged' is behavioural: the model building API is deterministic in the state of the object it is called on, so after a rejected call every later call has the same outcome as on a twin object that received the same accepted calls but never the rejected one (same environment, so environment-level caches are shared by both)",
 ]
 SHARD_TIMEOUT = {"quick": 600, "thorough": 3600}
 N = {"quick": 400, "thorough": 32000}
@@ -80,6 +96,25 @@ FLUENTS = [
     ("kp", "int05", [["x", "S"]]),
 ]
 PARAMS = [("pT", "T"), ("pS", "S"), ("pI", ["int", 0, 2]), ("pH", ["int", 0, None])]
+# parameters of the same-named sibling actions: neither signature is a refinement of the other
+PARAMS_ALT = [("pT", "S"), ("pS", "T"), ("pI", ["int", 1, 3]), ("pH", ["int", None, 3])]
+# actual parameters admitted by (variant, parameter): an "all good" instance draws from these
+AI_GOOD = {
+    "": {
+        "pT": [["obj", "oT"], ["obj", "oS"], ["e", ["o", "oS"]], ["e", ["o", "oT"]]],
+        "pS": [["obj", "oS"], ["e", ["o", "oS"]]],
+        "pI": [["py", 0], ["py", 1], ["py", 2]],
+        "pH": [["py", 0], ["py", 1], ["py", 3], ["py", 7], ["py", 250]],
+    },
+    "_alt": {
+        "pT": [["obj", "oS"], ["e", ["o", "oS"]]],
+        "pS": [["obj", "oT"], ["obj", "oS"], ["e", ["o", "oS"]]],
+        "pI": [["py", 1], ["py", 2], ["py", 3]],
+        "pH": [["py", 0], ["py", 1], ["py", 3], ["py", -1], ["py", -4]],
+    },
+}
+SIBLING = {"inst": "inst_alt", "inst_alt": "inst", "dur": "dur_alt", "dur_alt": "dur"}
+NUMERIC = ("int05", "int", "real0_72", "real", "int0_", "int_3", "real0_", "real_100")
 
 CONSTS = [
     ["py", True], ["py", False], ["py", 0], ["py", 3], ["py", 5], ["py", 7], ["py", -1], ["frac", "1/2"], ["frac", "7/2"],
@@ -149,6 +184,31 @@ class World:
         self.inst = InstantaneousAction("inst", ps, env)
         self.dur = DurativeAction("dur", OrderedDict(ps), env)
         self.dur.set_fixed_duration(3)
+        # twins: same name / signature; they receive every call except the calls rejected for an ill-typed value
+        self.inst_twin = InstantaneousAction("inst", OrderedDict(ps), env)
+        self.dur_twin = DurativeAction("dur", OrderedDict(ps), env)
+        self.dur_twin.set_fixed_duration(3)
+        # siblings: different actions with the SAME names and differently typed parameters (as in two agents of one
+        # multi-agent problem, or two problems of one process)
+        ps_alt = OrderedDict((n, self.type(t)) for n, t in PARAMS_ALT)
+        self.inst_alt = InstantaneousAction("inst", ps_alt, env)
+        self.dur_alt = DurativeAction("dur", OrderedDict(ps_alt), env)
+        self.dur_alt.set_fixed_duration(3)
+        self.actions = {"inst": self.inst, "dur": self.dur, "inst_alt": self.inst_alt, "dur_alt": self.dur_alt}
+        self._agents = None
+
+    def agent_of(self, aname):
+        """The two agents of one multi-agent problem owning the same-named actions (built on first use)."""
+        if self._agents is None:
+            from unified_planning.model.multi_agent import MultiAgentProblem, Agent
+
+            ma = MultiAgentProblem("ma", self.env)
+            a1, a2 = Agent("a1", ma), Agent("a2", ma)
+            a1.add_action(self.inst), a1.add_action(self.dur)
+            a2.add_action(self.inst_alt), a2.add_action(self.dur_alt)
+            ma.add_agent(a1), ma.add_agent(a2)
+            self._agents = (a1, a2)
+        return self._agents[1 if aname.endswith("_alt") else 0]
 
     def type(self, t):
         return self.ctx.type(TYPES[t] if isinstance(t, str) else t)
@@ -216,7 +276,7 @@ def gen_history(rng):
         elif r < 0.8:
             cont = rng.choice(["inst", "dur", "prob"])
             name, t, sig = rng.choice(FLUENTS)
-            numeric = t in ("int05", "int", "real0_72", "real", "int0_", "int_3", "real0_", "real_100")
+            numeric = t in NUMERIC
             kind = rng.choice(["assign", "assign", "inc", "dec"]) if numeric or rng.random() < 0.1 else "assign"
             hist.append(
                 {
@@ -230,14 +290,20 @@ def gen_history(rng):
                 }
             )
         else:
+            aname = rng.choice(["inst", "dur", "inst_alt", "dur_alt"])
+            variant = "_alt" if aname.endswith("_alt") else ""
             ps = []
-            allgood = rng.random() < 0.4
-            for pn, pt in PARAMS:
+            allgood = rng.random() < 0.5
+            for pn, pt in PARAMS_ALT if variant else PARAMS:
                 if allgood:
-                    ps.append(rng.choice({"T": [["obj", "oT"], ["obj", "oS"], ["e", ["o", "oS"]]], "S": [["obj", "oS"]]}.get(pt, [["py", 0], ["py", 2], ["py", 3], ["py", 1]]) if isinstance(pt, str) else [["py", 0], ["py", 2], ["py", 3], ["py", 1]]))
+                    ps.append(rng.choice(AI_GOOD[variant][pn]))
                 else:
                     ps.append(pick_value(rng, pt if isinstance(pt, str) else "int05", False))
-            hist.append({"call": "ActionInstance", "action": rng.choice(["inst", "dur"]), "params": ps})
+            agent = rng.random() < 0.35
+            hist.append({"call": "ActionInstance", "action": aname, "params": ps, "agent": agent})
+            if rng.random() < 0.75:
+                # the very same actual parameters for the different action with the same name
+                hist.append({"call": "ActionInstance", "action": SIBLING[aname], "params": ps, "agent": agent, "sibling_of_previous": True})
     return hist
 
 
@@ -257,6 +323,19 @@ def classify(ttype, raw, env, need_const):
     return str(vt), v.is_constant(), bad
 
 
+def followup_for(rng, call):
+    """A well-typed edit of the target of a call that was rejected for its value: same container / fluent expression,
+    constant value admitted by the fluent's type, unconditional."""
+    fname = call["target"][1]
+    tname = next(f[1] for f in FLUENTS if f[0] == fname)
+    consts = [v for v in MATCHING[tname] if v[0] in ("py", "frac", "float", "obj") or (v[0] == "e" and v[1][0] in ("i", "r", "o", "b"))]
+    other = [v for v in consts if v != call["value"]] or consts
+    if call["call"] == "set_initial_value":
+        return {"call": "set_initial_value", "target": call["target"], "value": rng.choice(other), "followup": True}
+    kind = rng.choice(["assign", "assign", "inc", "dec"]) if tname in NUMERIC else "assign"
+    return {**call, "kind": kind, "value": rng.choice(other), "cond": None, "followup": True}
+
+
 def run_case(key, tier, res):
     from unified_planning.model import Problem
     from unified_planning.model.timing import StartTiming, EndTiming, GlobalStartTiming
@@ -264,29 +343,34 @@ def run_case(key, tier, res):
 
     rng = rng_for(key)
     hist = gen_history(rng)
+    rng_fu = rng_for(key, "followup")
     env = _env.fresh_env()
     w = World(env)
     wbase = {"case_key": key, "tier": tier}
     known_bad = set()
     pb = None
+    pb_twin = None
+    twin = {"ok": True, "rejected": []}  # ok: the twin saw the same accepted history so far
     done = []
 
     def viol(mech, summary, **kw):
         res.violation(mech, summary, {**wbase, "history": done, **kw})
 
-    def judge(call, callkind, thunk, targets, with_model=True):
-        """targets: [(target type, raw value, need_const)] of this call; thunk performs it."""
+    def run(thunk):
+        try:
+            return thunk(), "accepted"
+        except Exception as e:  # "rejected with an error": any exception is a rejection; the class is counted
+            return None, "rejected:" + type(e).__name__
+
+    def judge(call, callkind, thunk, targets, with_model=True, twin_thunk=None):
+        """targets: [(target type, raw value, need_const)] of this call; thunk performs it; twin_thunk performs it on the
+        twin objects, which never see a call rejected for its value."""
         info = [classify(tt, raw, env, nc) for tt, raw, nc in targets]
         intended_bad = any(i[2] for i in info)
         before = mt.snapshot(pb, [w.inst, w.dur]) if (with_model and pb is not None) else None
         res.mon()
         res.case()
-        try:
-            out = thunk()
-            outcome = "accepted"
-        except Exception as e:  # "rejected with an error": any exception is a rejection; the class is counted
-            out = None
-            outcome = "rejected:" + type(e).__name__
+        out, outcome = run(thunk)
         done.append({**call, "outcome": outcome})
         res.count(f"{callkind}:{'bad' if intended_bad else 'good'}:{outcome.split(':')[0]}")
         if outcome != "accepted":
@@ -298,6 +382,33 @@ def run_case(key, tier, res):
                 res.nt((callkind, tclass(tt), i[0], i[1]))
                 if (tt.is_int_type() or tt.is_real_type()) and (tt.lower_bound is None) != (tt.upper_bound is None) and i[1]:
                     res.count("half_bounded_target_with_bad_constant:" + outcome.split(":")[0])
+        # ---- twin: "leave the model unchanged" observed through behaviour. The twin never sees a call that was rejected
+        # for its value; every other call must have the same outcome on the model and on the twin.
+        if twin_thunk is not None and twin["ok"]:
+            if outcome != "accepted" and intended_bad:
+                twin["rejected"].append(callkind)
+                res.count("twin_skipped_rejected_ill_typed_call")
+            else:
+                _, outcome2 = run(twin_thunk)
+                res.count("twin_compared_calls")
+                if twin["rejected"]:
+                    res.count("twin_compared_calls_after_a_rejected_call")
+                if call.get("followup"):
+                    res.count(f"followup:{callkind}:twin_{outcome2.split(':')[0]}")
+                    res.nt(("followup", callkind, tclass(targets[0][0]), twin["rejected"][-1]))
+                if outcome2 != outcome:
+                    twin["ok"] = False
+                    res.count("twin_diverged")
+                    if twin["rejected"]:
+                        viol(
+                            f"rejected-call-left-trace:{callkind}:{outcome}:twin-{outcome2}",
+                            f"after {len(twin['rejected'])} calls rejected for an ill-typed value (last: {twin['rejected'][-1]}), {callkind} is {outcome} "
+                            f"on the model but {outcome2} on a twin that never saw the rejected calls",
+                            call=call,
+                            rejected_calls=[d for d in done if d["outcome"] != "accepted"][-4:],
+                        )
+                    else:
+                        viol(f"nondeterministic-outcome:{callkind}", f"{callkind} is {outcome} on the model but {outcome2} on an identically built twin", call=call)
         if outcome == "accepted":
             return out, True
         if not intended_bad:
@@ -312,6 +423,7 @@ def run_case(key, tier, res):
                     before=mt.show(before),
                     after=mt.show(after),
                 )
+                twin["ok"] = False
                 # whatever the rejected call left behind is attributed to it, not to the next accepted call
                 left = mt.scan_problem(pb)
                 mt.scan_action(w.inst, left)
@@ -346,7 +458,11 @@ def run_case(key, tier, res):
             )
 
     timings = {"dur": [StartTiming(), EndTiming()], "prob": [GlobalStartTiming(2), GlobalStartTiming(4)]}
-    for call in hist:
+    last_ai = [None]
+
+    def perform(call):
+        """-> True iff the call was rejected and its value was ill-typed (a follow-up edit is then due)."""
+        nonlocal pb, pb_twin
         k = call["call"]
         if k == "Problem":
             idf = {}
@@ -361,52 +477,104 @@ def run_case(key, tier, res):
                 out, ok = None, False
             pb = out if ok else Problem("p", env)
             pb.add_objects(list(w.ctx.objects.values()))
+            pb_twin = Problem("p", env, initial_defaults=idf) if ok else Problem("p", env)
+            pb_twin.add_objects(list(w.ctx.objects.values()))
             if ok:
                 scan(call, "Problem(initial_defaults)")
         elif k == "add_fluent":
             fl = w.ctx.fluents[call["fluent"]]
             if call["default"] is None:
                 pb.add_fluent(fl)
+                pb_twin.add_fluent(fl)
                 done.append({**call, "outcome": "accepted"})
                 scan(call, "add_fluent(no default)")
-                continue
+                return False
             raw = w.value(call["default"])
-            out, ok = judge(call, "add_fluent(default_initial_value)", lambda: pb.add_fluent(fl, default_initial_value=raw), [(fl.type, raw, True)])
+            out, ok = judge(
+                call,
+                "add_fluent(default_initial_value)",
+                lambda: pb.add_fluent(fl, default_initial_value=raw),
+                [(fl.type, raw, True)],
+                twin_thunk=lambda: pb_twin.add_fluent(fl, default_initial_value=raw),
+            )
             if ok:
                 scan(call, "add_fluent(default_initial_value)")
             elif not pb.has_fluent(fl.name):
                 pb.add_fluent(fl)
+            if not pb_twin.has_fluent(fl.name):
+                pb_twin.add_fluent(fl)
         elif k == "set_initial_value":
             tgt = w.value(["e", call["target"]])
             raw = w.value(call["value"])
-            out, ok = judge(call, "set_initial_value", lambda: pb.set_initial_value(tgt, raw), [(tgt.type, raw, True)])
+            n_rej = len(twin["rejected"])
+            out, ok = judge(
+                call,
+                "set_initial_value",
+                lambda: pb.set_initial_value(tgt, raw),
+                [(tgt.type, raw, True)],
+                twin_thunk=lambda: pb_twin.set_initial_value(tgt, raw),
+            )
             if ok:
                 scan(call, "set_initial_value")
+            return len(twin["rejected"]) > n_rej
         elif k == "effect":
             cont = call["container"]
             obj = {"inst": w.inst, "dur": w.dur, "prob": pb}[cont]
+            obj2 = {"inst": w.inst_twin, "dur": w.dur_twin, "prob": pb_twin}[cont]
             act = obj if cont != "prob" else None
             tgt = w.value(["e", call["target"]], act)
             raw = w.value(call["value"], act)
             cond = w.value(["e", call["cond"]], act) if call["cond"] is not None else True
             pre = () if cont == "inst" else (timings[cont][call["t"]],)
-            if call["kind"] == "assign":
-                m = obj.add_timed_effect if cont == "prob" else obj.add_effect
-            elif call["kind"] == "inc":
-                m = obj.add_increase_effect
-            else:
-                m = obj.add_decrease_effect
-            ck = f"{'add_timed_effect' if cont == 'prob' else 'add_effect'}[{cont}]" if call["kind"] == "assign" else f"add_{'increase' if call['kind'] == 'inc' else 'decrease'}_effect[{cont}]"
-            out, ok = judge(call, ck, lambda: m(*pre, tgt, raw, cond), [(tgt.type, raw, False)])
+            mname = ("add_timed_effect" if cont == "prob" else "add_effect") if call["kind"] == "assign" else ("add_increase_effect" if call["kind"] == "inc" else "add_decrease_effect")
+            ck = f"{mname}[{cont}]"
+            n_rej = len(twin["rejected"])
+            out, ok = judge(
+                call,
+                ck,
+                lambda: getattr(obj, mname)(*pre, tgt, raw, cond),
+                [(tgt.type, raw, False)],
+                twin_thunk=lambda: getattr(obj2, mname)(*pre, tgt, raw, cond),
+            )
             if ok:
                 scan(call, ck)
+            return len(twin["rejected"]) > n_rej
         elif k == "ActionInstance":
-            act = {"inst": w.inst, "dur": w.dur}[call["action"]]
+            act = w.actions[call["action"]]
+            agent = w.agent_of(call["action"]) if call.get("agent") else None
             raws = [w.value(vs) for vs in call["params"]]
             targets = [(p.type, raw, False) for p, raw in zip(act.parameters, raws)]
-            out, ok = judge(call, "ActionInstance", lambda: ActionInstance(act, tuple(raws)), targets, with_model=False)
+            out, ok = judge(call, "ActionInstance", lambda: ActionInstance(act, tuple(raws), agent), targets, with_model=False)
+            bad = any(classify(tt, raw, env, nc)[2] for tt, raw, nc in targets)
+            if call.get("sibling_of_previous") and last_ai[0] is not None:
+                # history-dependence: the same-named action was just instantiated with the very same parameters
+                first_ok, first_name = last_ai[0]
+                res.count(f"ActionInstance_same_name_same_params:first_{'accepted' if first_ok else 'rejected'}:{'bad' if bad else 'good'}")
+                if first_ok and bad:
+                    res.count(f"ActionInstance_ill_typed_after_valid_same_name:{'alt_first' if first_name.endswith('_alt') else 'base_first'}")
+                    if call.get("agent"):
+                        res.count("ActionInstance_ill_typed_after_valid_same_name:other_agent")
+                    res.nt(("ActionInstance-after-same-name", first_name, tuple(str(r) for r in raws)))
+            last_ai[0] = (ok, call["action"])
             if ok:
                 scan(call, "ActionInstance", extra=mt.scan_action_instance(out))
+        return False
+
+    for call in hist:
+        if perform(call) and twin["ok"]:
+            # the rejected call must have left no trace: a legal edit of the same target behaves as on the twin
+            perform(followup_for(rng_fu, call))
+    if twin["ok"] and pb is not None:
+        res.count("twin_final_comparisons")
+        s1 = mt.snapshot(pb, [w.inst, w.dur])
+        s2 = mt.snapshot(pb_twin, [w.inst_twin, w.dur_twin])
+        if s1 != s2:
+            viol(
+                "model-differs-from-twin-at-end",
+                f"after {len(twin['rejected'])} rejected ill-typed calls the model differs from a twin that never saw them",
+                model=mt.show(s1),
+                twin=mt.show(s2),
+            )
     if int(key.rsplit(":", 1)[1]) < 2:
         res.sample({"history": done[:8] + done[-4:], "n_calls": len(done)})
 
@@ -478,6 +646,22 @@ def thresholds(m):
     hb = c.get("half_bounded_target_with_bad_constant:accepted", 0) + c.get("half_bounded_target_with_bad_constant:rejected", 0)
     if hb < 40:
         out.append(f"fewer than 40 calls storing an inadmissible constant into a numeric target bounded on one side only ({hb})")
+    # behavioural "unchanged": legal follow-up edits of a target whose last edit was rejected for its value, compared with a twin
+    for ck, lo in [
+        ("add_effect[inst]", 60), ("add_effect[dur]", 60), ("add_timed_effect[prob]", 60), ("set_initial_value", 200),
+        ("add_increase_effect[inst]", 10), ("add_increase_effect[dur]", 10), ("add_increase_effect[prob]", 10),
+        ("add_decrease_effect[inst]", 10), ("add_decrease_effect[dur]", 10), ("add_decrease_effect[prob]", 10),
+    ]:
+        n = c.get(f"followup:{ck}:twin_accepted", 0)
+        if n < lo:
+            out.append(f"fewer than {lo} legal {ck} follow-ups (accepted by the twin) right after a call on the same target rejected for its value ({n})")
+    if c.get("twin_final_comparisons", 0) < 300:
+        out.append(f"fewer than 300 histories compared with their twin at the end ({c.get('twin_final_comparisons', 0)})")
+    # history dependence of ActionInstance: ill-typed parameters right after a valid instance of a same-named action with the same parameters
+    for k, lo in [("base_first", 30), ("alt_first", 30), ("other_agent", 20)]:
+        n = c.get(f"ActionInstance_ill_typed_after_valid_same_name:{k}", 0)
+        if n < lo:
+            out.append(f"fewer than {lo} ill-typed ActionInstance calls right after an accepted instance of a different same-named action with the same actual parameters [{k}] ({n})")
     if c.get("examples_scanned", 0) < 40:
         out.append("fewer than 40 example problems scanned")
     if len(m["nontrivial"]) < 60:
